@@ -29,8 +29,11 @@ P = {
  "C19": ("proved for the wrappers over the library model under Ciphers.Lawful; the library model is validated against the Lean reference TDES/AES", "Lean 4 CBC/ECB inverse theorems (induction over blocks) + correspondence against independent ciphers"),
  "C20": ("fully proved: parity helper = bit-count parity, adjust/variant/xor exact", "Lean 4 bit-level theorems (testBit, decide over 256 bytes) + exhaustive correspondence"),
 }
+TABLES = {"C01", "C03", "C09", "C10", "C11", "C12", "C13", "C15", "C16"}
 checks = []
 for pid, (text, tech) in P.items():
+    if pid in TABLES:
+        tech += " + constant tables regenerated from the Python source on every run (harness/tables.py) and proved equal to the model's (Lemmas/TablesAgree)"
     checks.append({
         "property_id": pid,
         "quick_cmd": f"./check {pid} --tier quick",
@@ -49,10 +52,10 @@ m = {
            "baseline_off_cmd": "cd /repo && /venv/bin/python -m pytest -ra -q -p no:cacheprovider --timeout=900 --continue-on-collection-errors",
            "source_commits": [], "add_only": True},
  "engines": [{"name": "lean4-model+correspondence", "path": "lean/ and harness/", "serves_properties": list(P),
-              "kind_free_text": "hand-written Lean 4 model + specification + theorems; Python correspondence harness driving a compiled Lean executable over a line protocol; for C18 a Python-AST effect extractor regenerates part of the model"}],
+              "kind_free_text": "hand-written Lean 4 model + specification + theorems; Python correspondence harness driving a compiled Lean executable over a line protocol; for C18 a Python-AST effect extractor regenerates part of the model; a Python-AST table translator regenerates every constant table and theorems tie the model to them"}],
  "checks": checks,
  "not_applicable": [],
- "notes": "Every check: lake build (no-op when unchanged) -> #print axioms audit of the property's theorems -> correspondence implementation vs model -> property predicate on the implementation with the Lean specification as oracle. Exit 2 = infrastructure problem (never a VIOLATION).",
+ "notes": "Every check: lake build (no-op when unchanged) -> constant tables regenerated from the source and re-proved equal to the model's (9 properties) -> #print axioms audit of the property's theorems -> correspondence implementation vs model -> property predicate on the implementation with the Lean specification as oracle. Exit 2 = infrastructure problem (never a VIOLATION).",
 }
 json.dump(m, open(os.path.join(HERE, "MANIFEST.json"), "w"), indent=1)
 print("wrote MANIFEST.json with", len(checks), "checks")
